@@ -11,6 +11,8 @@
 //	erc20 <int> <d>          utility.FormatDecimalForERC20(n, d)
 //	rocket <int> <d>         utility.FormatDecimalForRocket(n, d)
 //	evmval <int>             rlp round trip -> eth_tx.ConvertTx -> executor.decodeContractData (hook C18b)
+//	ft <d> <step>...         fresh account.AccountDB, token name bound (AddERC20Binding) to a contract with d
+//	                         decimals; steps s<int>=SetFT a<int>=AddFT u<int>=SubFT g=GetFT (accountdb_tuntun.go)
 //
 // mode=corr (default): corpus first, then generated ops; writes ops=/obs= files.
 // mode=search: direct property oracle (no model): prints "VIOL <key> <op> :: <detail>" lines.
@@ -30,6 +32,8 @@ import (
 	"com.tuntun.rangers/node/src/common"
 	"com.tuntun.rangers/node/src/eth_tx"
 	"com.tuntun.rangers/node/src/executor"
+	"com.tuntun.rangers/node/src/middleware/db"
+	"com.tuntun.rangers/node/src/storage/account"
 	"com.tuntun.rangers/node/src/utility"
 	"com.tuntun.rangers/node/src/storage/rlp"
 	"verif/harness/hx"
@@ -96,6 +100,62 @@ func evmValue(v *big.Int) string {
 }
 
 const hugeExp = 150000
+
+// ftRun executes the steps of an `ft` op on a fresh AccountDB.
+func ftRun(d uint64, steps []string) string {
+	mem, err := db.NewMemDatabase()
+	if err != nil {
+		return "memdb-error"
+	}
+	adb, err := account.NewAccountDB(common.Hash{}, account.NewDatabase(mem))
+	if err != nil {
+		return "accountdb-error"
+	}
+	const name = "VERIFTOKEN"
+	contract := common.HexToAddress("0x3333333333333333333333333333333333333333")
+	user := common.HexToAddress("0x4444444444444444444444444444444444444444")
+	if !adb.AddERC20Binding(name, contract, 3, d) {
+		return "binding-error"
+	}
+	out := []string{"ft"}
+	show := func(v *big.Int) string {
+		if v == nil {
+			return "nil"
+		}
+		return v.String()
+	}
+	for _, st := range steps {
+		if st == "g" {
+			out = append(out, "g:"+show(adb.GetFT(user, name)))
+			continue
+		}
+		if len(st) < 2 {
+			return "bad-op"
+		}
+		n, ok := parseBig(st[1:])
+		if !ok {
+			return "bad-op"
+		}
+		switch st[0] {
+		case 's':
+			adb.SetFT(user, name, n)
+			out = append(out, "s")
+		case 'a':
+			adb.AddFT(user, name, n)
+			out = append(out, "a")
+		case 'u':
+			left, ok := adb.SubFT(user, name, n)
+			flag := "0"
+			if ok {
+				flag = "1"
+			}
+			out = append(out, "u:"+flag+":"+show(left))
+		default:
+			return "bad-op"
+		}
+	}
+	return strings.Join(out, " ")
+}
 
 // exec evaluates one op line against the implementation.
 func exec(op string) string {
@@ -168,6 +228,12 @@ func exec(op string) string {
 			return "bad-op"
 		}
 		return showInt(utility.FormatDecimalForRocket(n, d), nil)
+	case w[0] == "ft" && len(w) >= 2:
+		d, err := strconv.ParseUint(w[1], 10, 64)
+		if err != nil {
+			return "bad-op"
+		}
+		return ftRun(d, w[2:])
 	case w[0] == "evmval" && len(w) == 2:
 		n, ok := parseBig(w[1])
 		if !ok {
@@ -414,10 +480,46 @@ func genMalformed(r *hx.Rng, dist map[string]int) string {
 
 func parseOp(s string, d int64) string { return "parse " + hx.Hex([]byte(s)) + " " + strconv.FormatInt(d, 10) }
 
+// genFT: a short history of SetFT/AddFT/SubFT/GetFT on a token with d decimals.
+func genFT(r *hx.Rng, dist map[string]int) string {
+	d := genDecimals(r)
+	if d < 0 {
+		d = int64(r.Intn(19))
+	}
+	var sb strings.Builder
+	sb.WriteString("ft " + strconv.FormatInt(d, 10))
+	n := 1 + r.Intn(6)
+	amt := func() string {
+		v := genNat(r, dist)
+		if r.Chance(1, 12) {
+			v.Neg(v)
+		}
+		return v.String()
+	}
+	for i := 0; i < n; i++ {
+		switch r.Intn(5) {
+		case 0:
+			sb.WriteString(" s" + amt())
+		case 1:
+			sb.WriteString(" a" + amt())
+		case 2:
+			sb.WriteString(" u" + amt())
+		default:
+			sb.WriteString(" g")
+		}
+		if r.Chance(1, 2) {
+			sb.WriteString(" g")
+		}
+	}
+	return sb.String()
+}
+
 // genOp produces one op line.
 func genOp(r *hx.Rng, dist map[string]int) string {
-	c := r.Intn(100)
+	c := r.Intn(108)
 	switch {
+	case c >= 100:
+		return genFT(r, dist)
 	case c < 26:
 		s := genPlain(r, dist)
 		d := int64(18)
@@ -504,7 +606,19 @@ func search(r *hx.Rng, n int, dist map[string]int) (evals int, distinct int, vs 
 	inDomain := func(v *big.Int) bool { return new(big.Int).Abs(v).Cmp(lim) < 0 }
 	for i := 0; i < n; i++ {
 		evals++
-		switch r.Intn(6) {
+		switch r.Intn(7) {
+		case 6: // a balance written to an 18-decimal bound token and read back / moved is unchanged
+			v := genNat(r, dist)
+			if !inDomain(v) {
+				continue
+			}
+			op := "ft 18 s" + v.String() + " g a" + v.String() + " g u" + v.String() + " g"
+			seen[op] = true
+			twice := new(big.Int).Add(v, v).String()
+			want := "ft s g:" + v.String() + " a g:" + twice + " u:1:" + v.String() + " g:" + v.String()
+			if got := hx.Guard(func() string { return exec(op) }); got != want {
+				add("ft-18", op, "SetFT/GetFT/AddFT/SubFT at 18 decimals = "+got+" want "+want)
+			}
 		case 0: // format -> parse round trip over the balance / EVM word range, both signs
 			v := genInt(r, dist)
 			if !inDomain(v) {
